@@ -1,4 +1,5 @@
 import TR.Lemmas.Cache
+import TR.Lemmas.CacheFifo
 /-!
 # C10 — cache hits return the latest unexpired value of the right key; size is bounded; the victim follows the policy
 
@@ -183,6 +184,65 @@ theorem no_eviction_otherwise (cfg : Cfg) (s : State) (now k v w : Nat)
     ∀ x ∈ s.store, x.key ≠ k → ∃ y ∈ (storeInsert cfg now s.tick s.store k v w).items, Same y x :=
   storeInsert_keeps h
 
+/-! ## FIFO: "first in" after arbitrary interleavings of expiry-removals and re-stores
+
+`victim_fifo` says the victim has the smallest `born` among the stored entries. The theorems below
+say what that means for the queue itself and pin down `born`: the queue only ever changes by one
+of four moves (`QStep`), so an entry whose expired predecessor was lazily removed re-enters at the
+back as a *new* entry, the removal of an expired slot (front, middle, anywhere) leaves the order of
+all other slots alone, and the victim is the front — the entry that has been stored longest without
+interruption, not the key that was first seen. -/
+
+/-- **The FIFO queue, every state, every operation.** One operation of the service does exactly one
+of these to the store (`TR.Cache.QStep`): `same` — the slots (key, creation tick) and their order are
+unchanged (hits, re-inserts of a present key, failed completions, drops, time); `expire` — the
+lookup found its entry expired: that slot is deleted and nothing else moves (`rm`); `push` — a key
+that is not stored, room left: the new entry, created at this tick, goes to the back; `evict` — a
+key that is not stored, store full: the front leaves and the new entry goes to the back. -/
+theorem fifo_queue_step (cfg : Cfg) (hp : cfg.policy = .fifo) (s : State) (op : Op) :
+    QStep cfg.ttl s.now cfg.cap s.tick s.store (stepS cfg s op).store :=
+  step_fifo_queue cfg hp s op
+
+/-- … in particular the entries that stay keep their relative order and their creation ticks, and
+at most one entry is new: it is at the back, created at this tick, under a key that was not stored. -/
+theorem fifo_survivors_keep_order (cfg : Cfg) (hp : cfg.policy = .fifo) (s : State) (op : Op) :
+    ∃ kept new, (stepS cfg s op).store.map slot = kept ++ new ∧ kept.Sublist (s.store.map slot) ∧
+      new.length ≤ 1 ∧ ∀ sl ∈ new, sl.2 = s.tick ∧ ∀ x ∈ s.store, x.key ≠ sl.1 :=
+  (step_fifo_queue cfg hp s op).slots_sublist
+
+/-- Over a whole history: the queue is in order of creation — creation ticks strictly increase from
+front to back, and all lie before the current tick (so the next entry created is the newest). -/
+theorem fifo_queue_in_creation_order (cfg : Cfg) (hp : cfg.policy = .fifo) (ops : List Op) :
+    (run cfg ops).store.Pairwise (fun a b => a.born < b.born) ∧
+    ∀ e ∈ (run cfg ops).store, e.born < (run cfg ops).tick :=
+  ⟨(inv_reachable cfg ops).1.st.fifo hp, fun e he => ((inv_reachable cfg ops).1.st.ticks e he).2⟩
+
+/-- **FIFO victim = the oldest *stored* entry**, after any history (any interleaving of expiries,
+lazy removals, re-stores, evictions): a new key into a full store removes the front of the queue
+and appends the new entry; the front was created strictly before every other entry now stored. -/
+theorem victim_fifo_oldest_stored (cfg : Cfg) (ops : List Op) (hp : cfg.policy = .fifo)
+    (now k v w : Nat) (hnew : find (run cfg ops).store k = none)
+    (hfull : (run cfg ops).store.length ≥ cfg.cap) :
+    (storeInsert cfg now (run cfg ops).tick (run cfg ops).store k v w).victim = (run cfg ops).store.head? ∧
+    (storeInsert cfg now (run cfg ops).tick (run cfg ops).store k v w).items
+      = (run cfg ops).store.tail ++
+        [{ key := k, val := v, ins := now, cnt := 1, used := (run cfg ops).tick, born := (run cfg ops).tick }] ∧
+    ∀ x, (run cfg ops).store.head? = some x → ∀ y ∈ (run cfg ops).store, y ≠ x → x.born < y.born := by
+  rw [storeInsert_fifo hp]
+  refine ⟨(insertFifo_victim_head hnew hfull).1, (insertFifo_victim_head hnew hfull).2, ?_⟩
+  have hs := (fifo_queue_in_creation_order cfg hp ops).1
+  intro x hx y hy hne
+  cases hst : (run cfg ops).store with
+  | nil => rw [hst] at hx; simp at hx
+  | cons a tl =>
+    rw [hst] at hx hy hs
+    simp only [List.head?_cons, Option.some.injEq] at hx
+    subst hx
+    simp only [List.mem_cons] at hy
+    rcases hy with rfl | hy
+    · exact absurd rfl hne
+    · exact (List.pairwise_cons.mp hs).1 y hy
+
 /-- `cap` is `max_size` for every configuration the property quantifies over. -/
 theorem cap_is_max (cfg : Cfg) (hm : 0 < cfg.max) : cfg.cap = cfg.max := cap_eq_max hm
 
@@ -211,6 +271,31 @@ example :
     ((run cfg ops).store.map (fun e => (e.key, e.val))) = [(2, 2), (3, 4)] ∧
     lookup (run cfg ops).stored 1 = some (1, 5) ∧
     find (run cfg ops).store 1 = none ∧ (run cfg ops).store.length ≥ cfg.cap := by decide
+
+/-- FIFO with a TTL, `max = 3`: 1 stored at 0, 2 and 3 at 7; at 11 only 1 (the **front**) has expired.
+Its lookup deletes just that slot (queue 2 3), the completion re-stores it at the back (2 3 1), so key 4
+evicts 2 — not 3, and not the key that was first seen. -/
+example :
+    let cfg : Cfg := { max := 3, ttl := some 10, policy := .fifo }
+    let ops := [Op.arrive 1 1 0 ⟨0, .ok⟩, .poll 1 0, .adv 7, .arrive 2 2 0 ⟨0, .ok⟩, .poll 2 0,
+                .arrive 3 3 0 ⟨0, .ok⟩, .poll 3 0, .adv 4, .arrive 4 1 0 ⟨0, .ok⟩]
+    ((run cfg ops).store.map (·.key)) = [2, 3] ∧
+    ((run cfg (ops ++ [.poll 4 0])).store.map (·.key)) = [2, 3, 1] ∧
+    find (run cfg (ops ++ [.poll 4 0])).store 4 = none ∧ (run cfg (ops ++ [.poll 4 0])).store.length ≥ cfg.cap ∧
+    ((run cfg (ops ++ [.poll 4 0, .arrive 5 4 0 ⟨0, .ok⟩, .poll 5 0])).store.map (·.key)) = [3, 1, 4] := by decide
+
+/-- FIFO, `max = 4`, a **middle** slot expires: key 1 is refreshed by a late concurrent completion
+(slot kept, `inserted_at` new), so at 12 only key 2, second in the queue 1 2 3 4, has expired. The
+lookup leaves 1 3 4, the re-store gives 1 3 4 2; keys 5 and 6 then evict 1 and 3. -/
+example :
+    let cfg : Cfg := { max := 4, ttl := some 10, policy := .fifo }
+    let ops := [Op.arrive 1 1 0 ⟨0, .ok⟩, .arrive 2 1 0 ⟨5, .ok⟩, .poll 1 0, .adv 1, .arrive 3 2 0 ⟨0, .ok⟩, .poll 3 0,
+                .adv 4, .poll 2 0, .arrive 4 3 0 ⟨0, .ok⟩, .poll 4 0, .arrive 5 4 0 ⟨0, .ok⟩, .poll 5 0, .adv 7]
+    ((run cfg ops).store.map (fun e => (e.key, e.ins))) = [(1, 5), (2, 1), (3, 5), (4, 5)] ∧
+    ((run cfg (ops ++ [.arrive 6 2 0 ⟨0, .ok⟩])).store.map (·.key)) = [1, 3, 4] ∧
+    ((run cfg (ops ++ [.arrive 6 2 0 ⟨0, .ok⟩, .poll 6 0])).store.map (·.key)) = [1, 3, 4, 2] ∧
+    ((run cfg (ops ++ [.arrive 6 2 0 ⟨0, .ok⟩, .poll 6 0, .arrive 7 5 0 ⟨0, .ok⟩, .poll 7 0,
+                       .arrive 8 6 0 ⟨0, .ok⟩, .poll 8 0])).store.map (·.key)) = [4, 2, 5, 6] := by decide
 
 /-- a pending call that will fail (hypotheses of `errors_not_cached`), and a parked hit
 (hypothesis of `hit_result`) -/
